@@ -80,6 +80,8 @@ def grid_points(tier):
 
 
 NEAR = [-1e-2, -1e-4, -1e-6, 1e-6, 1e-4, 1e-2]
+# ... and inside the undecided zone B (|disc| <= 1e-9 b^2): either answer is accepted there, but an answer must still be a number
+NEAR_B = [-1e-10, -1e-11, -1e-12, -3e-13, -1e-13, -1e-14, -1e-15, 0.0, 1e-15, 1e-13, 1e-11]
 
 
 def near_threshold_points(gamma, u, dt):
@@ -87,19 +89,19 @@ def near_threshold_points(gamma, u, dt):
     |w| = sqrt((1 - delta)/4)/|z|, which gives disc = delta exactly, and the Laplacian action that produces this w is solved for."""
     if gamma == 0:
         return None
-    P, M, E, L = [], [], [], []
+    P, M, E, L, F = [], [], [], [], []
     for mod, ph, mu, eps in itertools.product((0.5, 1.0), (0.3, 2.0), (0.0, 0.3), (1.0, 0.0)):
         psi = mod * np.exp(1j * ph)
         a2 = mod * mod
         U = np.exp(-1j * mu * dt)
         z = U * gamma**2 / 2 * psi
         s = np.sqrt(1 + gamma**2 * a2)
-        for delta in NEAR:
+        for delta in NEAR + NEAR_B:
             r = np.sqrt((1 - delta) / 4) / abs(z)
             w = 1j * z / abs(z) * r
             lap = ((w - z * a2) / U - psi) / ((dt / u) * s) - (eps - a2) * psi
-            P.append(psi), M.append(mu), E.append(eps), L.append(lap)
-    return np.array(P, complex), np.array(M, float), np.array(E, float), np.array(L, complex)
+            P.append(psi), M.append(mu), E.append(eps), L.append(lap), F.append(delta in NEAR_B)
+    return np.array(P, complex), np.array(M, float), np.array(E, float), np.array(L, complex), np.array(F, bool)
 
 
 def call(psi, mu, eps, lap, gamma, u, dt, helper_first=False):
@@ -185,16 +187,19 @@ def run_grid(case):
     g, u, dt = case["gamma"], case["u"], case["dt"]
     psi, mu, eps, lap = grid_points(case["tier"])
     near = near_threshold_points(g, u, dt)
+    forcedB = np.zeros(len(psi), bool)
     if near is not None and dt >= 1e-6:  # for smaller dt the required Laplacian action is so large that rounding in w swamps delta
-        psi, mu, eps, lap = (np.concatenate([a, b]) for a, b in zip((psi, mu, eps, lap), near))
+        forcedB = np.concatenate([forcedB, near[4]])
+        psi, mu, eps, lap = (np.concatenate([a, b]) for a, b in zip((psi, mu, eps, lap), near[:4]))
         res.count("near_threshold_points", len(near[0]))
     ref = psi_update(psi, mu, eps, g, u, dt, lap)
     b = np.asarray(ref["b"], np.longdouble)
     disc = np.asarray(ref["disc"], np.longdouble)
     thr = np.longdouble(TOLERANCES["zone"]) * b * b
     finite = np.isfinite(np.asarray(disc, float)) & np.isfinite(np.asarray(ref["w"], complex))
-    zoneA = np.asarray(finite & (disc > thr))
-    zoneC = np.asarray(finite & (disc < -thr))
+    # points constructed to sit on the threshold are undecided whatever the reference says (the construction itself is rounded)
+    zoneA = np.asarray(finite & (disc > thr) & ~forcedB)
+    zoneC = np.asarray(finite & (disc < -thr) & ~forcedB)
     ctx = dict(gamma=g, u=u, dt=dt)
     res.count("zoneA_points", int(zoneA.sum()))
     res.count("zoneC_points", int(zoneC.sum()))
@@ -240,6 +245,45 @@ def run_grid(case):
             res.violate("unsolvable-site-answered", alone=bool(alone is not None), embedded=bool(embedded is not None), **ctx,
                         detail={"psi": psi[i], "mu": mu[i], "eps": eps[i], "lap": lap[i], "disc_ref": float(disc[i]), "x": x})
             break
+    # ---- zone B (undecided): refusal and answer are both accepted, but an answer must be finite, real, non-negative,
+    #      consistent (psi' = w - z x exactly as defined; |psi'|^2 = x to the conditioning of a double root) -------------
+    iB = np.where(finite & ~zoneA & ~zoneC)[0]
+    for i in iB:
+        res.executions += 2
+        for how in ("alone", "embedded"):
+            if how == "alone":
+                got = call(psi[[i]], mu[[i]], eps[[i]], lap[[i]], g, u, dt)
+                pos = 0
+            else:
+                ii = np.concatenate([emb[:20], [i], emb[20:]])
+                got = call(psi[ii], mu[ii], eps[ii], lap[ii], g, u, dt)
+                pos = min(20, len(emb))
+            if got is None:
+                res.count("zoneB_refused")
+                continue
+            res.count("zoneB_answered")
+            p_, x_ = complex(got[0][pos]), got[1][pos]
+            bad = None
+            if not (np.isfinite(p_.real) and np.isfinite(p_.imag) and np.isfinite(np.real(x_)) and np.isfinite(np.imag(x_))):
+                bad = "answer-not-finite"
+            elif np.imag(x_) != 0:
+                bad = "answer-complex"
+            elif np.real(x_) < 0:
+                bad = "answer-negative"
+            else:
+                zi, wi = complex(ref["z"][i]), complex(ref["w"][i])
+                # scale of the terms that make up w (cancellation inside w is not charged to the code), as in check_answer
+                sc = float(term_scale(psi[[i]], eps[[i]], lap[[i]], g, u, dt)[0]) + abs(zi) * float(np.real(x_)) + 1e-300
+                if abs(p_ + zi * float(np.real(x_)) - wi) > 1e-9 * sc:
+                    bad = "equation-not-satisfied"
+                elif abs(abs(p_) ** 2 - float(np.real(x_))) > 1e-3 * sc * sc:
+                    bad = "reported-modulus-is-not-that-of-psi"
+            if bad:
+                res.violate(bad, zone="B", alone=(how == "alone"), **ctx, detail={"psi": psi[i], "mu": mu[i], "eps": eps[i], "lap": lap[i], "disc_ref": float(disc[i])})
+                break
+        else:
+            continue
+        break
     res.nontrivial = True
     res.outcome = f"grid;A={'yes' if len(iA) else 'no'};C={'yes' if len(iC) else 'no'}"
     return res
